@@ -19,6 +19,10 @@ switch typeName + "." + field {
 return 0, false
 ```
 
+(How each of the two templates SPELLS the tag, the labels and the selectors - as strings, through `ucFirst` - is
+`Model/ComplexityLabel.lean` over the regenerated `Gen/ComplexityLabels.lean`; `Props/C14Label.lean` proves that string
+switch equal to the pair switch below.)
+
 * `GObject` — `Object.Name`, `Object.IsReserved`, `Object.Fields`.
 * `Arm` — one `case` clause: its labels (as pairs; GraphQL names contain no `.`, so `typeName + "." + field`
   is injective on them) and the `ComplexityRoot` entry `(object, GoFieldName)` its body calls. The body is
